@@ -46,9 +46,12 @@ def gen(rng, tier):
         ops = (set(common.DENSE_PAST_OPS) | {'eventually_b', 'always_b'}) - {'log'} if future else set(common.DENSE_PAST_OPS)
     else:
         ops = (set(common.PAST_OPS) | {'eventually_b', 'always_b', 'until_b', 'unless_b', 'next'}) - {'log'} if future else set(common.PAST_OPS)   # log: F08
+    precise = rng.random() < 0.15
     for _ in range(100):
-        ast = sg.gen_formula(rng, sg.GenCfg(vars=vars_, ops=ops, max_depth=rng.randint(3, 5), max_bound=rng.choice([2, 4]),
-                                            p_reuse=rng.choice([0.1, 0.4])))
+        cfg = sg.GenCfg(vars=vars_, ops=ops, max_depth=rng.randint(3, 5), max_bound=rng.choice([2, 4]), p_reuse=rng.choice([0.1, 0.4]))
+        if precise:
+            cfg.lattice = sg.LATTICE + [1.2345678, 0.1234567891, 3.14159265, 1234567.25, 2.0000001]
+        ast = sg.gen_formula(rng, cfg)
         if sg.size(ast) >= 4 and sg.vars_of(ast):
             break
     defs, top = sg.modularize(rng, ast, max_subs=3)
@@ -85,7 +88,7 @@ def gen(rng, tier):
     pastify = mode == 'on' and (any(x[0] in sg.FUTURE_OPS for x in sg.walk(ast)) or rng.random() < 0.1)
     sc = {'kind': kind, 'mode': mode, 'vars': vars_, 'ast': ast, 'defs': defs, 'top': top, 'subs_text': subs, 'top_text': toptext,
           'consts': dict((k, repr(float(v))) for k, v in consts.items()), 'bconsts': bconsts, 'pastify': bool(pastify),
-          'declare': rng.random() < 0.5, 'via': rng.choice(['add_sub_spec', 'text'])}
+          'declare': rng.random() < 0.5, 'via': rng.choice(['add_sub_spec', 'text']), 'const_numeric': rng.random() < 0.4}
     if dense:
         sc['signals'] = dict((v, world.gen_dense_signal(rng, rng.randint(2, 7), start_q=0, max_gap_q=4)[0]) for v in vars_)
         sc['nbatches'] = rng.randint(1, 4)
@@ -93,6 +96,13 @@ def gen(rng, tier):
         sc['n'] = rng.randint(1, 10)
         sc['data'] = world.gen_trace(rng, vars_, sc['n'])
         common.add_clock(rng, sc)
+    if mode == 'off' and rng.random() < 0.3:
+        # the same modular object is then used for a second, different log
+        if dense:
+            sc['again'] = dict((v, world.gen_dense_signal(rng, rng.randint(2, 7), start_q=0, max_gap_q=4)[0]) for v in vars_)
+        else:
+            n2 = rng.choice([1, 2, sc['n'], sc['n'] + 1, rng.randint(1, 10)])
+            sc['again'] = {'n': n2, 'data': world.gen_trace(rng, vars_, n2)}
     return sc
 
 
@@ -100,7 +110,7 @@ def modular_desc(sc):
     desc = {'cls': sc['kind'], 'vars': common.var_decls(sc['vars']), 'pastify': sc['pastify']}
     if sc.get('subs_text') is not None:
         subs, top = sc['subs_text'], sc['top_text']
-        cs = [[k, 'float', sc['consts'][k]] for k in sorted(sc['consts'])] + \
+        cs = [[k, 'float', (float(sc['consts'][k]) if sc.get('const_numeric') else sc['consts'][k])] for k in sorted(sc['consts'])] + \
              [[k, 'float', sc['bconsts'][k]] for k in sorted(sc['bconsts'])]
     else:
         dense = sc['kind'].startswith('ct')
@@ -180,6 +190,32 @@ def run(sc):
                     r.violate('modular-equals-inlined', modular=md, inlined=idesc, data=data, got=a, want=b)
                 nontriv = common.count_nontrivial(b)
             r.sim_time += 1
+            again = sc.get('again')
+            if again and common.ref_defined([sc['ast']], dense, again if dense else again['data'], None if dense else again['n']):
+                r.faults['object_reused_for_second_log'] += 1
+                mi2 = M.build(idesc)
+                r.evals += 1
+                if dense:
+                    a = M.ct_evaluate(mm, again, sc['vars'])
+                    b = M.ct_evaluate(mi2, again, sc['vars'])
+                    fa, fb = D.from_samples(a), D.from_samples(b)
+                    e1 = min(again[v][-1][0] for v in sg.vars_of(sc['ast']))
+                    bad = None
+                    if bool(fa) != bool(fb):
+                        bad = 'empty'
+                    elif fa:
+                        bad = 'start' if fa[0][0] != fb[0][0] else D.compare(a, fb, fb[0][0], max(fb[0][0], e1), eqn)
+                    if bad:
+                        r.violate('modular-equals-inlined', second_log=True, modular=md, inlined=idesc, first=sc['signals'], signals=again,
+                                  got=a, want=b, why=repr(bad))
+                else:
+                    st = list(range(again['n']))
+                    a = [p[1] for p in M.dt_evaluate(mm, st, again['data'])]
+                    b = [p[1] for p in M.dt_evaluate(mi2, st, again['data'])]
+                    if len(a) != len(b) or not all(eqn(x, y) for x, y in zip(a, b)):
+                        r.violate('modular-equals-inlined', second_log=True, modular=md, inlined=idesc, first=sc['data'], data=again['data'],
+                                  got=a, want=b)
+                r.obs.append(b)
         else:
             r.probes['online'] += 1
             if dense:
@@ -268,6 +304,10 @@ def run(sc):
 
 
 def shrinks(sc):
+    if sc.get('again'):
+        c = copy.deepcopy(sc)
+        c['again'] = None
+        yield c
     if sc.get('subs_text') is not None:
         c = copy.deepcopy(sc)
         c['subs_text'] = None
